@@ -304,8 +304,7 @@ Lemma combine_seq_tl (A : Type) (g : nat -> A) s m :
   combine (map g (seq s (S m))) (map g (seq (S s) m)) = map (fun i => (g i, g (S i))) (seq s m).
 Proof.
   revert s. induction m as [|m IH]; intros s; [reflexivity|].
-  change (seq s (S (S m))) with (s :: seq (S s) (S m)). change (seq (S s) (S m)) with (S s :: seq (S (S s)) m) at 2.
-  cbn [map combine]. f_equal. apply IH.
+  simpl. f_equal. exact (IH (S s)).
 Qed.
 
 Theorem gen_ray_cell_eq off n : IoGen.ray_cell off n = map (fun k => k + off) (MeshIO.range0 n).
